@@ -225,7 +225,23 @@ def write_replay(prop, tier, base_seed, index, vjson, recorded, calls):
     return path
 
 
+def tree_guard():
+    """py_gql must come from the tree under test, not from a fallback."""
+    import py_gql
+    src = os.path.realpath(os.path.dirname(py_gql.__file__))
+    want = os.path.realpath(os.path.join(
+        os.environ.get("VERIF_REPO_SRC", os.path.join(REPO, "src")),
+        "py_gql"))
+    if src != want:
+        print("HARNESS-ERROR py_gql imported from %s, expected %s"
+              % (src, want))
+        return False
+    return True
+
+
 def replay_cli(prop, path):
+    if not tree_guard():
+        return 3
     with open(path) as f:
         rp = json.load(f)
     ident = (rp["oracle"], list(rp["key"]))
@@ -257,14 +273,7 @@ def main_check(prop, tier, runs=None, budget_s=None):
     base_seed = int(os.environ.get("VERIF_SEED", "0"))
     print("VERIF_SEED=%d property=%s tier=%s" % (base_seed, prop, tier))
     sys.stdout.flush()
-    import py_gql
-    src = os.path.realpath(os.path.dirname(py_gql.__file__))
-    want = os.path.realpath(os.path.join(
-        os.environ.get("VERIF_REPO_SRC", os.path.join(REPO, "src")),
-        "py_gql"))
-    if src != want:
-        print("HARNESS-ERROR py_gql imported from %s, expected %s"
-              % (src, want))
+    if not tree_guard():
         return 3
     eng = engine_for(prop)
     if hasattr(eng, "prepare"):
